@@ -8,6 +8,7 @@ import vlib
 
 def parse_layout_src(repo="/repo"):
     src = open(os.path.join(repo, "src", "lib.rs")).read()
+    unknown = []
 
     def struct(name):
         m = re.search(r"((?:\s*#\[[^\]]*\]\s*|\s*///[^\n]*\n)*)\s*pub struct %s<[^>]*>\s*\{([^}]*)\}" % name, src)
@@ -28,7 +29,10 @@ def parse_layout_src(repo="/repo"):
             elif ty.startswith("PhantomData"):
                 fields.append("PhantomData")
             else:
-                raise vlib.ToolError("unexpected field type %r in %s (the layout model knows U, T, PhantomData)" % (ty, name))
+                # a field the model does not know (e.g. another zero-sized marker): modelled like PhantomData;
+                # the observed layouts decide, and the evidence records the assumption
+                fields.append("PhantomData")
+                unknown.append("%s.%s" % (name, ty))
         return fields, bool(re.search(r"#\[repr\(C\)\]", attrs))
 
     even, even_c = struct("GenericArrayImplEven")
@@ -37,7 +41,7 @@ def parse_layout_src(repo="/repo"):
     base = m.group(1).strip() if m else "?"
     m = re.search(r"((?:\s*#\[[^\]]*\]\s*|\s*///[^\n]*\n)*)\s*pub struct GenericArray<T, N: ArrayLength>", src)
     transparent = bool(m and "repr(transparent)" in m.group(1))
-    return {"even": even, "odd": odd, "even_repr_c": even_c, "odd_repr_c": odd_c, "base": base, "transparent": transparent}
+    return {"unknown_fields": unknown, "even": even, "odd": odd, "even_repr_c": even_c, "odd_repr_c": odd_c, "base": base, "transparent": transparent}
 
 
 def write_layout_src(info, path):
